@@ -199,7 +199,7 @@ func SnapFromImpl(n *Node, tracked []string) (s *Snap, err error) {
 		return nil, err
 	}
 	err = k.Bid.Walk(ctx, nil, func(key collections.Pair[uint64, uint64], b types.Bid) (bool, error) {
-		sb := SBid{AuctionID: b.AuctionId, ID: b.Id, Bidder: b.Bidder, Type: int32(b.Type), Price: b.Price.String(), Denom: b.Coin.Denom, Amt: b.Coin.Amount.String(), Matched: b.IsMatched}
+		sb := SBid{AuctionID: b.AuctionId, ID: b.Id, Bidder: canonAddr(b.Bidder), Type: int32(b.Type), Price: b.Price.String(), Denom: b.Coin.Denom, Amt: b.Coin.Amount.String(), Matched: b.IsMatched}
 		a, ok := byID[key.K1()]
 		if !ok || key.K1() != b.AuctionId || key.K2() != b.Id {
 			s.Orphans = append(s.Orphans, fmt.Sprintf("bid key (%d,%d) holds (%d,%d)", key.K1(), key.K2(), b.AuctionId, b.Id))
@@ -229,7 +229,7 @@ func SnapFromImpl(n *Node, tracked []string) (s *Snap, err error) {
 			s.Orphans = append(s.Orphans, fmt.Sprintf("vesting queue key (%d,%d) holds (%d,%d)", key.K1(), key.K2().UnixNano(), q.AuctionId, q.ReleaseTime.UnixNano()))
 			return false, nil
 		}
-		a.Queue = append(a.Queue, SQueue{AuctionID: q.AuctionId, ReleaseNs: q.ReleaseTime.UnixNano(), Amt: q.PayingCoin.Amount.String(), Denom: q.PayingCoin.Denom, Auctioneer: q.Auctioneer, Released: q.Released})
+		a.Queue = append(a.Queue, SQueue{AuctionID: q.AuctionId, ReleaseNs: q.ReleaseTime.UnixNano(), Amt: q.PayingCoin.Amount.String(), Denom: q.PayingCoin.Denom, Auctioneer: canonAddr(q.Auctioneer), Released: q.Released})
 		return false, nil
 	})
 	if err != nil {
@@ -390,4 +390,14 @@ func bigFromStr(s string) *big.Int {
 		return new(big.Int)
 	}
 	return v
+}
+
+// canonAddr: the canonical (lower-case bech32) spelling of an account address. Bech32 strings may be
+// written all upper-case; the module stores the spelling the message used. Which spelling is stored is
+// representation, not behaviour: records are compared by the account they name.
+func canonAddr(s string) string {
+	if a, err := sdk.AccAddressFromBech32(s); err == nil {
+		return a.String()
+	}
+	return s
 }
